@@ -25,7 +25,7 @@ ASSUMPTIONS = ['datagram network fully simulated (no sockets); one-way delay <= 
                'hostile repliers are scripted from a fixed catalogue; they answer every request they receive']
 REQUIRED_HITS = ['H1.lookup_found_announcer', 'H2.checked', 'H3.before_expiry_found', 'H3.after_expiry_gone', 'H3.renewed_found_after_first_expiry', 'H4.multi_announcer_all_found',
                  'H4.page_sweep_checked', 'T1.lookup_terminated', 'T1.with_loss', 'T1.with_dead', 'T1.with_hostile', 'T2.node_results_checked',
-                 'T2.value_results_checked', 'net.duplicates_delivered', 'net.reordered', 'hostile.garbage', 'hostile.endless_pages',
+                 'T2.value_results_checked', 'H4.page_sweep_checked_searcher_is_announcer', 'H4.multi_announcer_all_found_by_an_announcer', 'net.duplicates_delivered', 'net.reordered', 'hostile.garbage', 'hostile.endless_pages',
                  'hostile.reserved_ips', 'hostile.own_id_contacts', 'hostile.bad_compact', 'size.2', 'size.40']
 K, ALPHA, RPC = 8, 5, 5.0
 MAX_PROBES = 3000      # no honest or merely faulty network of <= 40 nodes needs more probes for one lookup
@@ -404,6 +404,18 @@ async def _hit(rec, case, loop):
                               {'n': n, 'announcers': len(announcers), 'missing': len(want - got), 'probes': probes})
             else:
                 rec.hit('H4.multi_announcer_all_found')
+            # the same lookup from a node that is itself one of the announcers (seeded break C12-C: the requester's own record was
+            # cut out of a page AFTER paging, leaving a short page that ends the paging early)
+            searcher = r.choice(announcers)
+            found, done, probes, dt, _ = await value_lookup(loop, nodes[searcher], blob)
+            got = {p.address for p in found}
+            want = {pub_ip(a) for a in announcers if a != searcher}
+            if want - got:
+                rec.violation('C12/H4/multi-announcer-lookup-misses-some/searcher-is-an-announcer',
+                              f'{len(announcers)} announcers of one blob in a network of {n}: lookup from node {searcher}, itself one of them, misses '
+                              f'{len(want - got)} of the others', {'n': n, 'announcers': len(announcers), 'missing': len(want - got), 'probes': probes})
+            else:
+                rec.hit('H4.multi_announcer_all_found_by_an_announcer')
         if net.duplicated:
             rec.hit('net.duplicates_delivered')
         if net.reordered:
@@ -441,6 +453,19 @@ async def _pages(rec, case, loop):
             if want - got:
                 rec.violation('C12/H4/paging-loses-records', f'one storing node holds {n} announcers for a blob, the lookup returned {len(got & want)} of them '
                               f'({probes} probes)', {'n': n, 'returned': len(got & want), 'probes': probes})
+            # again after the searcher has itself announced the blob to the storer (n + 1 records, the requester's own is left out of
+            # the replies): every one of the n others must still come back
+            await searcher.announce_blob(key.hex())
+            if not any(p.address == pub_ip(1) for p in storer.protocol.data_store.get_peers_for_blob(key)):
+                rec.log('pages.searcher_announcement_not_stored')
+                continue
+            found, done, probes, dt, _ = await value_lookup(loop, searcher, key)
+            rec.hit('H4.page_sweep_checked_searcher_is_announcer')
+            got = {p.address for p in found}
+            if want - got:
+                rec.violation('C12/H4/paging-loses-records/searcher-is-an-announcer',
+                              f'one storing node holds {n} announcers for a blob plus the searching node\'s own announcement, the lookup returned '
+                              f'{len(got & want)} of the {n} others ({probes} probes)', {'n': n, 'returned': len(got & want), 'probes': probes})
         rec.exhaustive['page_sweep_%d_%d' % (case['lo'], case['hi'])] = True
     finally:
         stop_all(nodes)
